@@ -187,7 +187,7 @@ def run(ctx) -> None:
                 "of each operation x tables with 0..3 prior snapshots; distinct = (operation, prior snapshots, k)")
     ctx.trusted_base += ["harness/lib/crash.py (fork + os._exit at a counted step; parent acts as the fresh process)"]
     ctx.assumptions += ["process death only (page cache intact); power loss is C16", "pointer intact before the operation"]
-    ctx.proofs(THEOREMS)
+    ctx.proofs(THEOREMS, gen_files=["GenCommit.v"])
     ctx.allow_axioms([])
     quick = ctx.tier == "quick"
     plan = [("append", 2), ("delete_snapshot", 2), ("create", 0), ("expire", 3), ("delete_files", 2)] if quick else \
